@@ -1,5 +1,6 @@
 import PGA.Proofs.SchemeRelabel
 import PGA.Proofs.Aromatize
+import PGA.Proofs.AromatizeLiteral
 import PGA.Proofs.DecomposeRelabel
 import PGA.Props.C02
 /-!
@@ -187,6 +188,14 @@ theorem C03_aromatize_rotation_reflection (m : Mol) (rs' : List (List Nat)) (h :
     (aromatizeRings rs' { m with rings := rs' }).bonds = (aromatizeRings m.rings m).bonds
   rw [← C03_aromatize_rings_equiv m.rings rs' h m]
   exact key rs' m rs'
+
+/-- **The model's one-pass update is the code's call-by-call update**: on every graph without parallel bonds (every
+`Mol.wf` graph) and every six-atom ring list, `setAromatic` (every bond joining two consecutive ring atoms retyped, ring
+atoms flagged — one pass) equals the six `GetAtomWithIdx(a).SetIsAromatic(True)` and six
+`GetBondBetweenAtoms(x, y).SetBondType(AROMATIC)` calls of `Scheme.py:372-407` executed one after the other. -/
+theorem C03_aromatize_update_literal (m : Mol) (hm : m.wf = true) (r : List Nat) (h6 : r.length = 6) :
+    setAromatic m r = setAromaticLiteral m r :=
+  setAromatic_eq_literal m (PGA.Match.wf_bonds m hm).2.1 r h6
 
 /-- **Order of the ring list, proved part.** If no two rings that pass Benson's check on `m` share a bond
 (`EligibleRingsBondDisjoint m`, decidable), visiting the rings in any other order gives the same molecule: every
